@@ -969,9 +969,26 @@ fn apply_inner(s: &St, i: usize, r: &Rec, cap: usize, contended: bool) -> Vec<(S
             }
         }
         TOp::SRel => {
-            let h = n.s_held.remove(&t).unwrap_or(0);
-            n.s_perm += h;
-            one(n, OK)
+            // the permits a task holds are separate objects dropped one after the other, each drop being a release
+            // with its own scheduling point: the operation may take effect in several steps
+            let h = s.s_held.get(&t).copied().unwrap_or(0);
+            if h == 0 {
+                one(n, OK)
+            } else {
+                (1..=h)
+                    .map(|k| {
+                        let mut m = s.clone();
+                        m.s_perm += k;
+                        if k == h {
+                            m.s_held.remove(&t);
+                            (m, Some(OK))
+                        } else {
+                            m.s_held.insert(t, h - k);
+                            (m, None)
+                        }
+                    })
+                    .collect()
+            }
         }
         TOp::SAdd(k) => {
             n.s_perm += k as i64;
